@@ -2,6 +2,7 @@ package compiler
 
 import (
 	"fmt"
+	"sort"
 
 	"github.com/grafana/cog/internal/ast"
 )
@@ -26,8 +27,20 @@ func (pass *FieldsSetDefault) processObject(_ *Visitor, _ *ast.Schema, object as
 		return object, nil
 	}
 
+	// several references can name the same field (matching ignores case): they
+	// are applied in a fixed order, not in the iteration order of the map
+	fieldRefs := make([]FieldReference, 0, len(pass.DefaultValues))
+	for fieldRef := range pass.DefaultValues {
+		fieldRefs = append(fieldRefs, fieldRef)
+	}
+	sort.Slice(fieldRefs, func(i, j int) bool {
+		a, b := fieldRefs[i], fieldRefs[j]
+		return a.Package+"."+a.Object+"."+a.Field < b.Package+"."+b.Object+"."+b.Field
+	})
+
 	for i, field := range object.Type.AsStruct().Fields {
-		for fieldRef, value := range pass.DefaultValues {
+		for _, fieldRef := range fieldRefs {
+			value := pass.DefaultValues[fieldRef]
 			if !fieldRef.Matches(object, field) {
 				continue
 			}
